@@ -237,3 +237,155 @@ def nuclide_merge_unites_disjoint_kinds_and_refuses_overlap(ma: int, mb: int, wa
         B2 = nuclide(lib, "U235AA", mb, wb, vb)
         assert not try_nuclide_merge(B2, A2)
         assert same_content(observe(B2), got), "same content in either order"
+
+
+# ----------------------------------------------------------------------------- IsotxsLibrary.merge
+properties = repo("armi.utils.properties")
+LABELS = ["U235AA", "U238AB"]
+KIND_META = ["isotxsMetadata", "gamisoMetadata", "pmatrxMetadata"]
+
+
+def xs_library(kind, labelmask, en, eg, dose, ngroups, w, v):
+    """a real IsotxsLibrary as one of the readers leaves it: kind 0 = ISOTXS (neutron group bounds, velocity, ISOTXS
+    metadata, nuclides with neutron data), 1 = GAMISO (gamma group bounds), 2 = PMATRX (both group structures and dose
+    conversion factors); nuclide labels of labelmask out of LABELS"""
+    lib = IsotxsLibrary()
+    if kind == 0:
+        lib.neutronEnergyUpperBounds = np.array([en, en + 1.0])
+        lib.neutronVelocity = np.array([en, 2.0])
+    elif kind == 1:
+        lib.gammaEnergyUpperBounds = np.array([eg, eg + 1.0])
+    else:
+        lib.neutronEnergyUpperBounds = np.array([en, en + 1.0])
+        lib.gammaEnergyUpperBounds = np.array([eg, eg + 1.0])
+        lib.neutronDoseConversionFactors = np.array([dose, 1.0])
+        lib.gammaDoseConversionFactors = np.array([dose, 2.0])
+    getattr(lib, KIND_META[kind])["numGroups"] = ngroups
+    getattr(lib, KIND_META[kind]).fileNames = ["file%d" % kind]
+    for i in range(2):
+        if bits(labelmask)[i]:
+            lib[LABELS[i]] = nuclide(lib, LABELS[i], [1, 2, 4][kind], w, v)
+    return lib
+
+
+def prop(lib, name):
+    """value of a write-once library property, None when it has not been set (read the way numGroups reads it)"""
+    properties.unlockImmutableProperties(lib)
+    val = getattr(lib, name)
+    properties.lockImmutableProperties(lib)
+    return val
+
+
+PROPS = ["neutronEnergyUpperBounds", "neutronVelocity", "gammaEnergyUpperBounds", "neutronDoseConversionFactors", "gammaDoseConversionFactors"]
+
+
+def observe_library(lib):
+    out = [first(prop(lib, p)) for p in PROPS]
+    for m in KIND_META:
+        out.append(getattr(lib, m)["numGroups"])
+    for lab in LABELS:
+        if lab in lib:
+            o = observe(lib[lab])
+            out.extend(o[:3] + o[6:])  # metadata values and data of the nuclide
+        else:
+            out.extend([None] * 10)
+    return out, lib.nuclideLabels
+
+
+def try_library_merge(a, b):
+    try:
+        a.merge(b)
+        return None
+    except (ImmutablePropertyError, OSError, AttributeError) as e:
+        return e
+
+
+G_LIB = {"ka": (0, 2), "kb": (0, 2), "la": (0, 3), "lb": (0, 3), "ena": [1.0, 2.0, 1.0], "enb": [1.0, 2.0, 1.0], "ega": [1.0, 2.0, 1.0], "egb": [1.0, 2.0, 1.0],
+         "da": [1.0, 2.0, 1.0], "db": [1.0, 2.0, 1.0], "ga": (2, 3), "gb": (2, 3), "w": (0, 1)}
+
+
+@lemma(gen=G_LIB)
+def library_merge_is_the_union_or_refused(ka: int, kb: int, la: int, lb: int, ena: float, enb: float, ega: float, egb: float,
+                                          da: float, db: float, ga: int, gb: int, w: int, x: float, y: float):
+    """IsotxsLibrary.merge (real _mergeProperties, _mergeNeutronEnergies, _mergeMetadata, _mergeNuclides, XSNuclide.merge,
+    write-once properties) for every pair of library kinds (ISOTXS / GAMISO / PMATRX: 3 x 3) and nuclide label sets
+    (subsets of two labels: 4 x 4), symbolic group bounds, dose factors, metadata and data:
+    refused (error) iff the inputs conflict - a group structure / dose factors defined by both with different values,
+    the same kind of file metadata with different values, or the same kind of data for a common label; otherwise the
+    result holds exactly the union of the labels (the target's, then the new ones in the source's order), every
+    nuclide with the data of its sources, every library property and metadata entry of either source."""
+    ka, kb = choose(ka, 0, 2), choose(kb, 0, 2)
+    la, lb = choose(la, 0, 3), choose(lb, 0, 3)
+    wv = [w, w, w]
+    A = xs_library(ka, la, ena, ega, da, ga, wv, [x, x, x])
+    B = xs_library(kb, lb, enb, egb, db, gb, wv, [y, y, y])
+    obsA, labelsA = observe_library(A)
+    obsB, labelsB = observe_library(B)
+    files = [getattr(A, m).fileNames + getattr(B, m).fileNames for m in KIND_META]
+    err = try_library_merge(A, B)
+    bothN = ka != 1 and kb != 1   # both define the neutron group structure
+    bothG = ka != 0 and kb != 0   # both define the gamma group structure
+    conflict = (bothN and ena != enb) or (bothG and ega != egb) or (ka == 2 and kb == 2 and da != db) \
+        or (ka == kb and ga != gb) or (ka == kb and any([bits(la)[i] and bits(lb)[i] for i in range(2)]))
+    assert (err is not None) == conflict, "refused iff the inputs conflict"
+    if err is None:
+        assert A.nuclideLabels == labelsA + [lab for lab in labelsB if lab not in labelsA], "exactly the union of the nuclide labels"
+        got, _ = observe_library(A)
+        for j in range(len(got)):
+            if obsA[j] is not None:
+                assert eq(got[j], obsA[j]), "kept from the target"
+            elif obsB[j] is not None:
+                assert eq(got[j], obsB[j]), "identical to its source"
+            else:
+                assert got[j] is None, "nothing invented"
+        for k in range(3):
+            assert getattr(A, KIND_META[k]).fileNames == files[k], "source files of both libraries are recorded"
+        for lab in A.nuclideLabels:
+            assert same(A[lab].container, A), "every nuclide now belongs to the merged library"
+
+
+@lemma(gen=G_LIB)
+def library_merge_content_is_order_independent(ka: int, kb: int, la: int, lb: int, ena: float, enb: float, ega: float, egb: float,
+                                               da: float, db: float, ga: int, gb: int, w: int, x: float, y: float):
+    """A.merge(B) and B.merge(A) (fresh copies) are refused in the same cases and otherwise hold the same content: the same
+    label set, per label the same data, the same library properties and metadata values.  (Same shapes as above; the
+    neutron velocity is tied to the group structure here - independent velocities are the pending finding.)"""
+    ka, kb = choose(ka, 0, 2), choose(kb, 0, 2)
+    la, lb = choose(la, 0, 3), choose(lb, 0, 3)
+    wv = [w, w, w]
+    A = xs_library(ka, la, ena, ega, da, ga, wv, [x, x, x])
+    B = xs_library(kb, lb, enb, egb, db, gb, wv, [y, y, y])
+    A2 = xs_library(ka, la, ena, ega, da, ga, wv, [x, x, x])
+    B2 = xs_library(kb, lb, enb, egb, db, gb, wv, [y, y, y])
+    e1 = try_library_merge(A, B)
+    e2 = try_library_merge(B2, A2)
+    assert (e1 is None) == (e2 is None), "refused in one order iff refused in the other"
+    if e1 is None:
+        o1, l1 = observe_library(A)
+        o2, l2 = observe_library(B2)
+        assert sorted(l1) == sorted(l2), "same nuclide labels"
+        assert same_content(o1, o2), "same content"
+
+
+@lemma(gen=dict(G_LIB, k=(0, 2)))
+def group_structure_conflict_between_like_libraries_changes_nothing(k: int, la: int, lb: int, ena: float, enb: float, ega: float, egb: float,
+                                                                    da: float, db: float, ga: int, gb: int, w: int, x: float, y: float):
+    """two libraries of the same kind (ISOTXS+ISOTXS, GAMISO+GAMISO, PMATRX+PMATRX; any label sets) whose group
+    structures / dose factors / group counts differ: the merge is refused and the target AND the source are unchanged
+    (labels, nuclide data, properties, metadata).  The general statement (any pair of kinds, any conflict) is refuted on
+    the unchanged tree: contracts/pending/C10_libmerge_finding.py."""
+    k = choose(k, 0, 2)
+    la, lb = choose(la, 0, 3), choose(lb, 0, 3)
+    assume((k != 1 and ena != enb) or (k != 0 and ega != egb) or (k == 2 and da != db) or ga != gb)
+    wv = [w, w, w]
+    A = xs_library(k, la, ena, ega, da, ga, wv, [x, x, x])
+    B = xs_library(k, lb, enb, egb, db, gb, wv, [y, y, y])
+    beforeA, labelsA = observe_library(A)
+    beforeB, labelsB = observe_library(B)
+    assert try_library_merge(A, B) is not None, "conflicting group structures are refused"
+    afterA, labelsA2 = observe_library(A)
+    afterB, labelsB2 = observe_library(B)
+    assert labelsA2 == labelsA and same_content(afterA, beforeA), "target unchanged"
+    assert labelsB2 == labelsB and same_content(afterB, beforeB), "source unchanged"
+    for lab in labelsB:
+        assert same(B[lab].container, B)
